@@ -18,7 +18,7 @@ use std::{
     ffi::CString,
     io,
     os::{
-        fd::{AsRawFd, FromRawFd, OwnedFd},
+        fd::{AsFd, AsRawFd, FromRawFd, OwnedFd},
         unix::fs::{FileExt, MetadataExt},
     },
     path::{Path, PathBuf},
@@ -31,6 +31,9 @@ use compio_runtime::{Runtime, fd::AsyncFd};
 use hx_common::*;
 
 const PIPE_LIMIT: usize = 32768;
+/// a pipe has 16 buffer slots; data spliced in never merges with what is there: stay well below
+const SLOT_LIMIT: usize = 12;
+const PIPE_CAPACITY: usize = 65536;
 /// writes / truncations beyond this position are not executed (sparse giant files, EFBIG + SIGXFSZ)
 const WRITE_LIMIT: u64 = 1 << 24;
 
@@ -283,6 +286,8 @@ struct CPipe {
     buffered: usize,
     /// a named FIFO opened read-write on both ends: never EOF, never EPIPE
     fifo: bool,
+    /// pipe buffer slots possibly in use (every write / splice into the pipe may take one of the 16)
+    slots: usize,
 }
 
 #[derive(Default)]
@@ -364,6 +369,62 @@ async fn compio_line(st: &mut CState, dir: &Path, w: &[&str]) -> Obs {
         return obs("unsupported");
     }
     match w {
+        ["splice", ..] => {
+            let Some((src, dst, len, oi, oo)) = parse_splice(w) else { return obs("bad-op") };
+            // bookkeeping guards (never start a transfer that would wait for a peer)
+            if let End::P(p) = src {
+                let Some(pp) = st.pipes.get(&p) else { return obs("nohandle") };
+                if pp.rx.is_none() {
+                    return obs("closed");
+                }
+                if pp.buffered == 0 && (pp.tx.is_some() || pp.fifo) {
+                    return obs("wouldblock");
+                }
+            }
+            if let End::P(p) = dst {
+                let Some(pp) = st.pipes.get(&p) else { return obs("nohandle") };
+                if pp.tx.is_none() {
+                    return obs("closed");
+                }
+                if pp.slots >= SLOT_LIMIT || pp.buffered >= PIPE_CAPACITY {
+                    return obs("full");
+                }
+            }
+            let r = match (src, dst) {
+                (End::F(a), End::P(b)) => {
+                    let Some(f) = st.files.get(&a) else { return obs("nohandle") };
+                    c_splice(f, st.pipes[&b].tx.as_ref().unwrap(), len, oi, oo).await
+                }
+                (End::P(a), End::F(b)) => {
+                    let Some(f) = st.files.get(&b) else { return obs("nohandle") };
+                    c_splice(st.pipes[&a].rx.as_ref().unwrap(), f, len, oi, oo).await
+                }
+                (End::P(a), End::P(b)) => c_splice(st.pipes[&a].rx.as_ref().unwrap(), st.pipes[&b].tx.as_ref().unwrap(), len, oi, oo).await,
+                (End::F(a), End::F(b)) => {
+                    let (Some(f), Some(g)) = (st.files.get(&a), st.files.get(&b)) else { return obs("nohandle") };
+                    c_splice(f, g, len, oi, oo).await
+                }
+            };
+            match r {
+                None => obs("timeout"),
+                Some(Err(e)) => err_obs(&e),
+                Some(Ok(n)) => {
+                    if let End::P(p) = src {
+                        let pp = st.pipes.get_mut(&p).unwrap();
+                        pp.buffered -= n.min(pp.buffered);
+                        if pp.buffered == 0 {
+                            pp.slots = 0;
+                        }
+                    }
+                    if let End::P(p) = dst {
+                        let pp = st.pipes.get_mut(&p).unwrap();
+                        pp.buffered += n;
+                        pp.slots += (n > 0) as usize;
+                    }
+                    obs(format!("ok {n}"))
+                }
+            }
+        }
         ["dtouch", p] => res_obs(compio_fs::write(tpath(dir, p), Vec::<u8>::new()).await.0),
         ["dmkdir", p] => res_obs(compio_fs::create_dir(tpath(dir, p)).await),
         ["dmkdirall", p] => res_obs(compio_fs::create_dir_all(tpath(dir, p)).await),
@@ -402,6 +463,7 @@ async fn compio_line(st: &mut CState, dir: &Path, w: &[&str]) -> Obs {
             let compio_buf::BufResult(r, v) = rx.read(Vec::<u8>::with_capacity(cap)).await;
             if let Ok(n) = &r {
                 pp.buffered -= (*n).min(pp.buffered);
+                if pp.buffered == 0 { pp.slots = 0; }
             }
             huge_obs(r, &v)
         }
@@ -429,7 +491,7 @@ async fn compio_line(st: &mut CState, dir: &Path, w: &[&str]) -> Obs {
             };
             match oo.open_sender(dir.join(name)).await {
                 Ok(tx) => {
-                    st.pipes.insert(p, CPipe { rx: Some(rx), tx: Some(tx), buffered: 0, fifo: true });
+                    st.pipes.insert(p, CPipe { rx: Some(rx), tx: Some(tx), buffered: 0, fifo: true, slots: 0 });
                     obs("ok")
                 }
                 Err(e) => err_obs(&e),
@@ -595,7 +657,7 @@ async fn compio_line(st: &mut CState, dir: &Path, w: &[&str]) -> Obs {
             let Some(p) = num(p) else { return obs("bad-op") };
             match compio_fs::pipe::anonymous().await {
                 Ok((rx, tx)) => {
-                    st.pipes.insert(p, CPipe { rx: Some(rx), tx: Some(tx), buffered: 0, fifo: false });
+                    st.pipes.insert(p, CPipe { rx: Some(rx), tx: Some(tx), buffered: 0, fifo: false, slots: 0 });
                     obs("ok")
                 }
                 Err(e) => err_obs(&e),
@@ -627,7 +689,7 @@ async fn compio_line(st: &mut CState, dir: &Path, w: &[&str]) -> Obs {
             if !sh.wf() {
                 return try_construct(&[sh]);
             }
-            if pp.buffered + sh.visible().len() > PIPE_LIMIT {
+            if pp.slots >= SLOT_LIMIT || pp.buffered + sh.visible().len() > PIPE_LIMIT {
                 return obs("full");
             }
             let r = match mk_any(&sh) {
@@ -637,6 +699,7 @@ async fn compio_line(st: &mut CState, dir: &Path, w: &[&str]) -> Obs {
             match r {
                 Ok(n) => {
                     pp.buffered += n;
+                pp.slots += (n > 0) as usize;
                     obs(format!("ok {n}"))
                 }
                 Err(e) => err_obs(&e),
@@ -651,7 +714,7 @@ async fn compio_line(st: &mut CState, dir: &Path, w: &[&str]) -> Obs {
                 return try_construct(&shs);
             }
             let total: usize = shs.iter().map(|s| s.visible().len()).sum();
-            if pp.buffered + total > PIPE_LIMIT {
+            if pp.slots >= SLOT_LIMIT || pp.buffered + total > PIPE_LIMIT {
                 return obs("full");
             }
             let all_plain = shs.iter().all(|s| !s.sliced);
@@ -663,6 +726,7 @@ async fn compio_line(st: &mut CState, dir: &Path, w: &[&str]) -> Obs {
             match r {
                 Ok(n) => {
                     pp.buffered += n;
+                pp.slots += (n > 0) as usize;
                     obs(format!("ok {n}"))
                 }
                 Err(e) => err_obs(&e),
@@ -691,6 +755,7 @@ async fn compio_line(st: &mut CState, dir: &Path, w: &[&str]) -> Obs {
             match r {
                 Ok(n) => {
                     pp.buffered -= n.min(pp.buffered);
+                if pp.buffered == 0 { pp.slots = 0; }
                     read_obs(n, &[sh], &[root], false)
                 }
                 Err(e) => err_obs(&e),
@@ -728,6 +793,7 @@ async fn compio_line(st: &mut CState, dir: &Path, w: &[&str]) -> Obs {
             })
             .await;
             pp.buffered -= got.min(pp.buffered);
+                if pp.buffered == 0 { pp.slots = 0; }
             o
         }
         ["fseqopen", h, name, rw] => {
@@ -868,6 +934,48 @@ fn kind_obs(m: io::Result<(bool, bool)>) -> Obs {
     }
 }
 
+#[derive(Clone, Copy, PartialEq)]
+enum End {
+    F(u64),
+    P(u64),
+}
+
+fn parse_end(s: &str) -> Option<End> {
+    let n: u64 = s.get(1..)?.parse().ok()?;
+    match s.as_bytes().first()? {
+        b'f' => Some(End::F(n)),
+        b'p' => Some(End::P(n)),
+        _ => None,
+    }
+}
+
+fn parse_off(s: &str) -> Option<Option<i64>> {
+    if s == "-" { Some(None) } else { s.parse::<i64>().ok().filter(|o| *o >= 0).map(Some) }
+}
+
+/// `splice SRC DST LEN OFFIN OFFOUT`
+fn parse_splice(w: &[&str]) -> Option<(End, End, usize, Option<i64>, Option<i64>)> {
+    let [_, a, b, len, oi, oo] = w else { return None };
+    Some((parse_end(a)?, parse_end(b)?, len.parse().ok()?, parse_off(oi)?, parse_off(oo)?))
+}
+
+async fn c_splice<I: AsFd + 'static, O: AsFd + 'static>(
+    a: &impl compio_driver::ToSharedFd<I>,
+    b: &impl compio_driver::ToSharedFd<O>,
+    len: usize,
+    oi: Option<i64>,
+    oo: Option<i64>,
+) -> Option<io::Result<usize>> {
+    let mut sp = compio_fs::pipe::splice(a, b, len);
+    if let Some(o) = oi {
+        sp = sp.offset_in(o);
+    }
+    if let Some(o) = oo {
+        sp = sp.offset_out(o);
+    }
+    compio_runtime::time::timeout(std::time::Duration::from_secs(3), std::future::IntoFuture::into_future(sp)).await.ok()
+}
+
 fn is_fifo_path(p: &Path) -> bool {
     use std::os::unix::fs::FileTypeExt;
     std::fs::metadata(p).map(|m| m.file_type().is_fifo()).unwrap_or(false)
@@ -930,6 +1038,7 @@ struct OPipe {
     tx: Option<OwnedFd>,
     buffered: usize,
     fifo: bool,
+    slots: usize,
 }
 
 #[derive(Default)]
@@ -1009,6 +1118,58 @@ fn os_line(st: &mut OState, dir: &Path, w: &[&str]) -> Obs {
         Err(e) => err_obs(&e),
     };
     match w {
+        ["splice", ..] => {
+            let Some((src, dst, len, oi, oo)) = parse_splice(w) else { return obs("bad-op") };
+            if let End::P(p) = src {
+                let Some(pp) = st.pipes.get(&p) else { return obs("nohandle") };
+                if pp.rx.is_none() {
+                    return obs("closed");
+                }
+                if pp.buffered == 0 && (pp.tx.is_some() || pp.fifo) {
+                    return obs("wouldblock");
+                }
+            }
+            if let End::P(p) = dst {
+                let Some(pp) = st.pipes.get(&p) else { return obs("nohandle") };
+                if pp.tx.is_none() {
+                    return obs("closed");
+                }
+                if pp.slots >= SLOT_LIMIT || pp.buffered >= PIPE_CAPACITY {
+                    return obs("full");
+                }
+            }
+            let fd_of = |e: End, input: bool| -> Option<i32> {
+                match e {
+                    End::F(h) => st.files.get(&h).map(|f| f.as_raw_fd()),
+                    End::P(p) => {
+                        let pp = st.pipes.get(&p)?;
+                        if input { pp.rx.as_ref().map(|f| f.as_raw_fd()) } else { pp.tx.as_ref().map(|f| f.as_raw_fd()) }
+                    }
+                }
+            };
+            let (Some(fi), Some(fo)) = (fd_of(src, true), fd_of(dst, false)) else { return obs("nohandle") };
+            let (mut oi, mut oo) = (oi, oo);
+            let pi = oi.as_mut().map(|o| o as *mut i64).unwrap_or(std::ptr::null_mut());
+            let po = oo.as_mut().map(|o| o as *mut i64).unwrap_or(std::ptr::null_mut());
+            match cvt(unsafe { libc::splice(fi, pi, fo, po, len, 0) }) {
+                Err(e) => err_obs(&e),
+                Ok(n) => {
+                    if let End::P(p) = src {
+                        let pp = st.pipes.get_mut(&p).unwrap();
+                        pp.buffered -= n.min(pp.buffered);
+                        if pp.buffered == 0 {
+                            pp.slots = 0;
+                        }
+                    }
+                    if let End::P(p) = dst {
+                        let pp = st.pipes.get_mut(&p).unwrap();
+                        pp.buffered += n;
+                        pp.slots += (n > 0) as usize;
+                    }
+                    obs(format!("ok {n}"))
+                }
+            }
+        }
         ["dtouch", p] => res_obs(std::fs::write(tpath(dir, p), b"")),
         ["dmkdir", p] => res_obs(std::fs::create_dir(tpath(dir, p))),
         ["dmkdirall", p] => res_obs(std::fs::create_dir_all(tpath(dir, p))),
@@ -1053,6 +1214,7 @@ fn os_line(st: &mut OState, dir: &Path, w: &[&str]) -> Obs {
             if let Ok(n) = &r {
                 unsafe { v.set_len(*n) };
                 pp.buffered -= (*n).min(pp.buffered);
+                if pp.buffered == 0 { pp.slots = 0; }
             }
             huge_obs(r, &v)
         }
@@ -1083,7 +1245,7 @@ fn os_line(st: &mut OState, dir: &Path, w: &[&str]) -> Obs {
             };
             match open().and_then(|rx| Ok((rx, open()?))) {
                 Ok((rx, tx)) => {
-                    st.pipes.insert(p, OPipe { rx: Some(rx.into()), tx: Some(tx.into()), buffered: 0, fifo: true });
+                    st.pipes.insert(p, OPipe { rx: Some(rx.into()), tx: Some(tx.into()), buffered: 0, fifo: true, slots: 0 });
                     obs("ok")
                 }
                 Err(e) => err_obs(&e),
@@ -1190,7 +1352,7 @@ fn os_line(st: &mut OState, dir: &Path, w: &[&str]) -> Obs {
                 return err_obs(&io::Error::last_os_error());
             }
             let (rx, tx) = unsafe { (OwnedFd::from_raw_fd(fds[0]), OwnedFd::from_raw_fd(fds[1])) };
-            st.pipes.insert(p, OPipe { rx: Some(rx), tx: Some(tx), buffered: 0, fifo: false });
+            st.pipes.insert(p, OPipe { rx: Some(rx), tx: Some(tx), buffered: 0, fifo: false, slots: 0 });
             obs("ok")
         }
         ["pclose", p, which] => {
@@ -1218,12 +1380,13 @@ fn os_line(st: &mut OState, dir: &Path, w: &[&str]) -> Obs {
                 return obs("panic");
             }
             let total: usize = shs.iter().map(|s| s.visible().len()).sum();
-            if pp.buffered + total > PIPE_LIMIT {
+            if pp.slots >= SLOT_LIMIT || pp.buffered + total > PIPE_LIMIT {
                 return obs("full");
             }
             let r = os_write(tx.as_raw_fd(), &shs, None, vectored);
             if let Ok(n) = &r {
                 pp.buffered += n;
+                pp.slots += (*n > 0) as usize;
             }
             wr(r)
         }
@@ -1244,6 +1407,7 @@ fn os_line(st: &mut OState, dir: &Path, w: &[&str]) -> Obs {
             if let Some(n) = o.text.split(' ').nth(1).and_then(|x| x.parse::<usize>().ok()) {
                 if o.text.starts_with("ok") {
                     pp.buffered -= n.min(pp.buffered);
+                if pp.buffered == 0 { pp.slots = 0; }
                 }
             }
             o
@@ -1650,6 +1814,71 @@ fn gen_tree_case(rng: &mut Rng) -> Vec<String> {
     l
 }
 
+const SPLICE_LENS: [u64; 8] = [0, 1, 3, 8, 100, 70000, 4294967301, 5];
+
+fn gen_opt_off(rng: &mut Rng, around: u64) -> String {
+    match rng.below(5) {
+        0 | 1 => "-".to_string(),
+        2 => "0".to_string(),
+        3 => rng.below(around + 1).to_string(),
+        _ => (around + rng.below(6)).to_string(),
+    }
+}
+
+/// splice between a regular file and pipes (`with_file`) or between pipes only
+fn gen_splice_case(rng: &mut Rng, with_file: bool) -> Vec<String> {
+    let mut l = vec![];
+    let flen = rng.range(8, 40);
+    l.push(format!("writeall a {}", hex(&rbytes(rng, flen, flen))));
+    l.push(format!("open 1 a {}", bits(true, true, false, false, false)));
+    // the sink is another file: a pipe buffer spliced from a file is a reference to the file's page, and
+    // copying it back into the same page is an overlapping copy the kernel does not specify
+    l.push(format!("writeall b {}", hex(&rbytes(rng, 0, 12))));
+    l.push(format!("open 2 b {}", bits(true, true, false, false, false)));
+    l.push("pipe 1".into());
+    l.push("pipe 2".into());
+    let mut fills = 0;
+    for _ in 0..rng.range(5, 11) {
+        let len = *rng.pick(&SPLICE_LENS);
+        match rng.below(12) {
+            0..=2 if with_file && fills < 8 => {
+                l.push(format!("splice f1 p{} {len} {} -", rng.range(1, 2), gen_opt_off(rng, flen)));
+                fills += 1;
+            }
+            3 | 4 if with_file => l.push(format!("splice p{} f2 {len} - {}", rng.range(1, 2), gen_opt_off(rng, 12))),
+            5 if with_file && rng.chance(1, 4) => l.push(format!("splice f1 f2 {len} 0 {}", gen_opt_off(rng, flen))),
+            // zero copy: the pipe holds references to the file's pages, a later write shows through
+            5 if with_file && rng.chance(1, 2) => l.push(format!("writeat 1 {} {}:0", rng.below(flen), hex(&rbytes(rng, 1, 4)))),
+            0..=5 if fills < 8 => {
+                l.push(format!("pwrite {} {}:0", rng.range(1, 2), hex(&rbytes(rng, 1, 12))));
+                fills += 1;
+            }
+            6 | 7 | 8 if fills < 8 => {
+                let a = rng.range(1, 2);
+                l.push(format!("splice p{a} p{} {len} - -", 3 - a));
+                fills += 1;
+            }
+            9 => l.push(format!("pread {} {}", rng.range(1, 2), gen_rbuf(rng))),
+            10 if rng.chance(1, 6) => l.push(format!("splice p1 p2 {len} {} -", rng.below(4))),
+            10 if rng.chance(1, 6) => l.push("splice p1 p1 4 - -".into()),
+            _ => l.push(format!("preadv {} {}", rng.range(1, 2), gen_list(rng, gen_rbuf))),
+        }
+    }
+    if rng.chance(1, 3) {
+        l.push("pclose 2 r".into());
+        l.push(if with_file { "splice f1 p2 4 0 -".to_string() } else { "splice p1 p2 4 - -".to_string() });
+    }
+    l.push("pclose 1 w".into());
+    l.push(if with_file { "splice p1 f2 100 - 2".to_string() } else { "splice p1 p2 100 - -".to_string() });
+    for p in [1, 2] {
+        l.push(format!("preadv {p} 40:0:0,40:0:9"));
+        l.push(format!("preadv {p} 40:0:0,40:0:9"));
+    }
+    l.push("content a".into());
+    l.push("content b".into());
+    l
+}
+
 fn gen_fifo_case(rng: &mut Rng) -> Vec<String> {
     let mut l = vec!["mkfifo p".to_string()];
     let mut name = "p";
@@ -1865,6 +2094,45 @@ fn generate(tier: &str, rng: &mut Rng) -> Vec<Case> {
     for i in 0..120 * scale {
         push(format!("tree-rand/{i}"), gen_tree_case(rng));
     }
+    // splice: a pipe filled to its capacity (16 pages) from a 70000-byte file, and pipe to pipe
+    {
+        let big: Vec<u8> = (0..70000u32).map(|i| (i % 251) as u8).collect();
+        push(
+            "splice/capacity".into(),
+            vec![
+                format!("writeall a {}", hex(&big)),
+                "open 1 a 10000".into(),
+                "pipe 1".into(),
+                "pipe 2".into(),
+                "splice f1 p1 100000 0 -".into(),
+                "splice f1 p1 10 0 -".into(),
+                "splice p1 p2 100000 - -".into(),
+                "hpread 2 4294967296".into(),
+                "splice f1 p1 4294967301 65530 -".into(),
+                "pread 1 16:0:0".into(),
+            ],
+        );
+        push(
+            "splice/pipe-to-pipe-32k".into(),
+            vec![
+                "pipe 1".into(),
+                "pipe 2".into(),
+                format!("pwrite 1 {}:0", hex(&big[..16000])),
+                format!("pwrite 1 {}:0", hex(&big[16000..32000])),
+                "splice p1 p2 100000 - -".into(),
+                "splice p1 p2 1 - -".into(),
+                "pclose 1 w".into(),
+                "splice p1 p2 1 - -".into(),
+                "hpread 2 4294967296".into(),
+            ],
+        );
+    }
+    for i in 0..60 * scale {
+        push(format!("splice-file/{i}"), gen_splice_case(rng, true));
+    }
+    for i in 0..60 * scale {
+        push(format!("splice-pipes/{i}"), gen_splice_case(rng, false));
+    }
     for i in 0..6 * scale {
         push(format!("huge-rand/{i}"), gen_huge_case(rng));
     }
@@ -1991,12 +2259,18 @@ fn main() {
                 op,
                 "dtouch" | "dmkdir" | "dmkdirall" | "dbuild" | "drmdir" | "drm" | "drename" | "dlink" | "dsymlink" | "dstat" | "dlstat" | "dtree"
             );
+            let splice_file = op == "splice"
+                && words.iter().skip(1).take(2).any(|e| e.starts_with('f'))
+                && b[i].text == "err 1"
+                && a[i].cmp == o[i].cmp;
             let known = if fseq {
                 Some("C08a:asyncfd-seq-regular-file")
             } else if minus_one {
                 Some("C08c:iour-offset-minus-one")
             } else if zero_read_dir {
                 Some("C08b:iour-zero-read-directory")
+            } else if splice_file {
+                Some("F080:poll-splice-regular-file")
             } else {
                 tainted
             };
@@ -2006,7 +2280,13 @@ fn main() {
                 if x.cmp != o[i].cmp {
                     bad = true;
                     ex.fail(
-                        sig(if dir_util { "C08:dir-util-differs" } else { "C08:os-divergence" }),
+                        sig(if dir_util {
+                            "C08:dir-util-differs"
+                        } else if op == "splice" {
+                            "C08:splice-differs"
+                        } else {
+                            "C08:os-divergence"
+                        }),
                         format!("line {i} `{line}` driver={drv}: compio `{}` but the OS `{}`", x.cmp, o[i].cmp),
                     );
                 }
@@ -2026,7 +2306,7 @@ fn main() {
                 bad = true;
                 ex.fail(sig("C08:driver-divergence"), format!("line {i} `{line}`: io_uring `{}` but polling `{}`", a[i].text, b[i].text));
             }
-            if bad && (fseq || minus_one) {
+            if bad && (fseq || minus_one || splice_file) {
                 // the file position / content of the two drivers now differ: later differences of this case
                 // are consequences of the same defect
                 tainted = known;
